@@ -182,5 +182,27 @@ P["C14"]["runs"] += [tierB("control", 3, 0, QT), tierB("control", 3, 1, T)]
 P["C14"]["assumptions"] = TIERA_ASSUME + TIERB_ASSUME
 P["C14"]["bounds"] += "; Tier B: real failures chosen by the solver through the facts (index out of range, integer division by zero, panicking user method, nil pointer; a failing sub-expression shared with a healthy rule)"
 
+ALLB = sorted(set(sum(TB_SETS.values(), [])) | {"b_argshare", "two", "tiny"})
+
+
+def c09(setname, k, tiers, **kw):
+    r = {"name": "c09-%s-k%d" % (setname, k), "pkgdir": "zztier", "harness": TIERC_H, "entry": "VerifC09Set", "args": [setname, k], "tiers": tiers,
+         "templates": [t + ".grl" for t in TB_SETS[setname]], "require_reach": ["c09:instances-created", "c09:both-executed"], "compare_events": False,
+         "model_only_labels": ["C09:model:*"],
+         "bounds": "template set '%s': real NewKnowledgeBaseInstance (all Clone methods, WorkingMemory.Clone, IsIdentical) in the executor; heap isomorphism incl. sharing and the five working-memory maps; reachability; read/write footprints of creation and of two runs on independent symbolic facts, <= %d firings each" % (setname, k)}
+    r.update(kw)
+    return r
+
+
+TB_SETS["clone"] = ["b_argshare", "b_shared", "b_short", "b_retract", "b_map", "b_slice_sel", "b_forgetcall", "two"]
+P["C09"] = {
+    "design_ref": "DESIGN.md §8 C09", "assumptions": TIERB_ASSUME + [
+        "interference freedom is decided on footprints: W1 disjoint from R2+W2 and W2 disjoint from R1 for all fact values => every interleaving of the two executions is data-race free and equivalent to a sequential one (DRF argument); scheduling itself is not executed",
+        "environment stubs (uuid, loggers, sync.Mutex, reflect's internal caches) are thread-safe by their own contract; a race inside a stubbed dependency is not seen",
+        "footprint assertions (labels C09:model:*) have no native counterpart: a counterexample on them is reported from the model (the isomorphism / sharing / behavioural assertions replay natively)"],
+    "bounds": "template set 'clone' (8 templates incl. heavy sharing: argument expressions shared with conditions); 3 instances; K <= 2 firings per run",
+    "outside": "rule sets outside the template family; more than 3 instances; races inside stubbed dependencies; GOMAXPROCS is immaterial to the argument",
+    "runs": [c09("clone", 2, QT), tierB("memo", 3, 0, T)]}
+
 json.dump({"properties": P}, open(os.path.join(V, "checks.json"), "w"), indent=1)
 print("properties:", sorted(P))
